@@ -261,9 +261,12 @@ def result_form(value, a):
             if _product_sign(data, a) != 1:
                 return "the NEGATED product"
             if rc in (("Y.tocoo().row", "Y.tocoo().col"), ("Y.nonzero()[0]", "Y.nonzero()[1]")):
-                extra = [k.arg for k in e.keywords] + [norm(x) for x in e.args[2:]]
-                shape_ok = len(e.args) >= 2 and norm(e.args[1]) in ("Y.tocoo().shape", "Y.shape")
-                if shape_ok and not [k for k in e.keywords if k.arg not in ("shape",)] and len(e.args) <= 2:
+                extra = [k.arg for k in e.keywords if k.arg != "shape"] + [norm(x) for x in e.args[2:]]
+                kw_shape = [norm(k.value) for k in e.keywords if k.arg == "shape"]
+                pos_shape = [norm(e.args[1])] if len(e.args) >= 2 else []
+                shapes = kw_shape + pos_shape
+                shape_ok = len(shapes) == 1 and shapes[0] in ("Y.tocoo().shape", "Y.shape")
+                if shape_ok and not extra and len(e.args) <= 2:
                     return "product"
                 return "the product re-wrapped with extra arguments " + str(extra)
             return f"the product placed at ({rc[0]}, {rc[1]}) instead of (row, col) of Y"
@@ -508,6 +511,7 @@ def rule_kpm_wiring(rep: Report, repo: Repo):
     from .sem import Scope, canon, outcomes
 
     R = "E7.kpm"
+    OPQ = ("solver_options",)  # the options mapping keeps its name (it may be defaulted to {} by an assignment)
     f = repo.find(f"{MOD}::solve_sylvester_KPM", R)
     loc = lambda n: repo.loc(MOD, n)
     params = [a.arg for a in f.args.args]
@@ -518,7 +522,7 @@ def rule_kpm_wiring(rep: Report, repo: Repo):
     if len(outer) != 1:
         raise AnalysisError(R, "the returned solver closure was not found")
     outer = outer[0]
-    env_o = env_at(outer, f, keep_params=False)
+    env_o = env_at(outer, f, keep_params=False, opaque=OPQ)
     AUX_ALTS = ("solver_options.get('auxiliary_vectors', np.zeros((h_0.shape[0], 0)))",)
     ext_alts = [f"(*subspace_eigenvectors, {a})" for a in AUX_ALTS]
     # the rescale unpacking: H', (a, b) = rescale(h_0, ...)
@@ -529,7 +533,7 @@ def rule_kpm_wiring(rep: Report, repo: Repo):
         raise AnalysisError(R, "`h_rescaled, (a, b) = rescale(h_0, ...)` not found")
     H = norm(un[0].targets[0].elts[0])
     A, B = (norm(e) for e in un[0].targets[0].elts[1].elts)
-    rep.check(rtext(un[0].value.args[0], env_at(un[0], f, keep_params=False)) == "h_0", R,
+    rep.check(rtext(un[0].value.args[0], env_at(un[0], f, keep_params=False, opaque=OPQ)) == "h_0", R,
               f"{MOD}::solve_sylvester_KPM rescales the unperturbed Hamiltonian", norm(un[0].value)[:80], loc(un[0]))
 
     # -- dispatch of the returned solver ----------------------------------------------------------------------------
@@ -587,7 +591,7 @@ def rule_kpm_wiring(rep: Report, repo: Repo):
     if len(kp) != 1:
         raise AnalysisError(R, "KPM closure (calling greens_function) not found")
     kp = kp[0]
-    env_k = env_at(kp, f, keep_params=False)
+    env_k = env_at(kp, f, keep_params=False, opaque=OPQ)
     for nm in (H, A, B):
         env_k.pop(nm, None)
     rets = [n for n in own_nodes(kp) if isinstance(n, ast.Return)]
@@ -672,7 +676,9 @@ def rule_direct_wiring(rep: Report, repo: Repo):
     env_o = env_at(f, outer)
     NORM_ALTS = ("_normalize_subspace_eigenvectors(tuple(eigenvectors))", "_normalize_subspace_eigenvectors(eigenvectors)")
     RE_ALTS, LE_ALTS = [f"{n}[0]" for n in NORM_ALTS], [f"{n}[1]" for n in NORM_ALTS]
-    P_ALTS = [f"ComplementProjector(np.hstack({r}), np.hstack({l}))" for r, l in zip(RE_ALTS, LE_ALTS)]
+    P_ALTS = [t for r, l in zip(RE_ALTS, LE_ALTS) for t in (
+        f"ComplementProjector(np.hstack({r}), np.hstack({l}))", f"ComplementProjector(vecs=np.hstack({r}), left_vecs=np.hstack({l}))",
+        f"ComplementProjector(np.hstack({r}), left_vecs=np.hstack({l}))", f"ComplementProjector(left_vecs=np.hstack({l}), vecs=np.hstack({r}))")]
     EIG_ALTS = [f"[np.diag(Dagger(_v1) @ h_0 @ _v0) for _v0, _v1 in zip({r}, {l}, strict=True)]" for r, l in zip(RE_ALTS, LE_ALTS)]
 
     # explicit part: the diagonal solver over diag(L_i^H H_0 R_i)
@@ -1127,3 +1133,143 @@ def rule_solve_scalar(rep: Report, repo: Repo):
     from .resolve import env_at as _env_at, rtext as _rtext
     e = [_rtext(n.value, _env_at(n, inner)) for n in un]
     rep.check(e == ["(eigs[index[0]], eigs[index[1]])"], R, "second_quantization::solve_sylvester_2nd_quant eigs_A, eigs_B = eigs[index[0]], eigs[index[1]]", str(e), loc(inner))
+
+
+# ---------------------------------------------------------------------------
+# kpm.py on resolved expressions
+# ---------------------------------------------------------------------------
+
+
+def rule_kpm_numerics(rep: Report, repo: Repo):
+    """Structure of the Chebyshev expansion of (E - H)^-1 v: recurrence, coefficients, residual orientation, rescaling.
+    Accuracy and convergence are numerical and are not decided."""
+    from .resolve import env_at, resolved, rtext, run_block
+
+    R = "E7.kpm"
+    g = repo.find("kpm::greens_function", R)
+    loc = lambda n: repo.loc("kpm", n)
+    loops = [n for n in g.body if isinstance(n, ast.While)]
+    if len(loops) != 1:
+        raise AnalysisError(R, "kpm.greens_function: refinement loop not found")
+    lp = loops[0]
+    rets = [n for n in own_nodes(g) if isinstance(n, ast.Return)]
+    if len(rets) != 1 or not isinstance(rets[0].value, ast.Name):
+        raise AnalysisError(R, "kpm.greens_function: returned solution is not one local")
+    SOL = rets[0].value.id
+    stores = {}
+    for s in lp.body:
+        if isinstance(s, ast.Assign) and len(s.targets) == 1 and isinstance(s.targets[0], ast.Name):
+            stores.setdefault(s.targets[0].id, []).append(s)
+    # residual: the loop variable compared with atol
+    tst = canon(lp.test)
+    if not (isinstance(tst, ast.Compare) and len(tst.ops) == 1 and isinstance(tst.ops[0], ast.Lt) and norm(tst.left) == "atol"
+            and isinstance(tst.comparators[0], ast.Name)):
+        raise AnalysisError(R, f"kpm.greens_function: loop condition `{norm(lp.test)}` not understood")
+    RES = tst.comparators[0].id
+    res = stores.get(RES, [])
+    ok = False
+    detail = "missing"
+    if len(res) == 1 and isinstance(res[0].value, ast.Call) and call_name(res[0].value) == "np.linalg.norm" and res[0].value.args:
+        arg = resolved(res[0].value.args[0], env_at(res[0], g, opaque=(SOL,)))
+        terms = {}
+        def collect(e, sign):
+            if isinstance(e, ast.BinOp) and isinstance(e.op, (ast.Add, ast.Sub)):
+                collect(e.left, sign)
+                collect(e.right, sign if isinstance(e.op, ast.Add) else -sign)
+            elif isinstance(e, ast.UnaryOp) and isinstance(e.op, ast.USub):
+                collect(e.operand, -sign)
+            else:
+                terms[norm(e)] = terms.get(norm(e), 0) + sign
+        collect(arg, 1)
+        detail = norm(arg)[:90]
+        # residual of (E - H) x = v is  v - (E x - H x) = (H x - E x) + v   (any association / order of the three terms)
+        t2 = {k.replace(f"{SOL} * energy", f"energy * {SOL}"): v for k, v in terms.items()}
+        want = {f"hamiltonian @ {SOL}": 1, f"energy * {SOL}": -1, "vector": 1}
+        ok = t2 == want or t2 == {k: -v for k, v in want.items()}
+    rep.check(ok, R, "kpm::greens_function accepts the solution by the residual of (E - H) x = v", detail, loc(g))
+    warn_ifs = [n for n in lp.body if isinstance(n, ast.If) and norm(canon(n.test)) == "max_moments < num_moments"]
+    ok2 = len(warn_ifs) == 1 and any(isinstance(x, ast.Call) and call_name(x) == "warn" and "RuntimeWarning" in norm(x) for x in ast.walk(warn_ifs[0])) \
+        and isinstance(warn_ifs[0].body[-1], ast.Break)
+    rep.check(ok2, R, "kpm::greens_function iterates until the residual is below atol or warns (RuntimeWarning) at max_moments",
+              f"loop while `{norm(lp.test)}`", loc(g))
+    # coefficients
+    coef_names = [n for n, v in stores.items() if any(isinstance(x, ast.Call) and call_name(x) == "np.sin" for x in ast.walk(v[0].value))]
+    if len(coef_names) != 1:
+        raise AnalysisError(R, "kpm.greens_function: coefficient array not found")
+    COEF = coef_names[0]
+    ctxt = rtext(stores[COEF][0].value, env_at(stores[COEF][0], g))
+    aug = [norm(n) for n in ast.walk(lp) if isinstance(n, ast.AugAssign)]
+    ok = ctxt == "-2 / np.sqrt(1 - energy ** 2) * np.sin(np.arange(num_moments) * np.arccos(energy))" \
+        and f"{COEF}[0] /= 2" in aug and f"{COEF} *= jackson_kernel(num_moments)" in aug
+    rep.check(ok, R, "kpm::greens_function Chebyshev coefficients of 1/(E - x): -2 sin(n arccos E)/sqrt(1 - E^2), halved at n = 0, Jackson-damped",
+              f"{ctxt[:100]}; " + "; ".join(aug), loc(g))
+    sol = stores.get(SOL, [])
+    stxt = rtext(sol[0].value, env_at(sol[0], g, opaque=(COEF,))) if len(sol) == 1 else ""
+    ok = stxt in (f"sum((_v1 * _v0 for _v0, _v1 in zip({COEF}, kpm_vectors(hamiltonian, vector))))",
+                  f"sum((_v0 * _v1 for _v0, _v1 in zip({COEF}, kpm_vectors(hamiltonian, vector))))")
+    rep.check(ok, R, "kpm::greens_function solution = sum_n c_n T_n(H) v", stxt[:120], loc(g))
+
+    # -- kpm_vectors: symbolic run of the generator ----------------------------------------------------------------------
+    kv = repo.find("kpm::kpm_vectors", R)
+    env = {}
+    yields = []
+    loop = None
+    def step(stmts, env):
+        nonlocal loop
+        for s in stmts:
+            if isinstance(s, ast.Expr) and isinstance(s.value, ast.Constant):
+                continue
+            if isinstance(s, ast.Expr) and isinstance(s.value, ast.Yield):
+                v = s.value.value
+                if isinstance(v, ast.NamedExpr):
+                    env[v.target.id] = resolved(v.value, env)
+                    yields.append(norm(env[v.target.id]))
+                else:
+                    yields.append(norm(resolved(v, env)))
+            elif isinstance(s, ast.Assign):
+                new = run_block([s], env)
+                env.clear(); env.update(new)
+            elif isinstance(s, ast.While) and norm(s.test) == "True" and loop is None:
+                loop = s
+                return
+            else:
+                raise AnalysisError(R, f"kpm_vectors: statement `{norm(s)[:50]}` not understood")
+    step(kv.body, env)
+    if loop is None:
+        raise AnalysisError(R, "kpm_vectors: `while True` recurrence not found")
+    pre = list(yields)
+    cur = [k for k, v in env.items() if norm(v) == "hamiltonian @ vector"]
+    prev = [k for k, v in env.items() if norm(v) == "vector"]
+    ok = pre == ["vector", "hamiltonian @ vector"] and len(cur) == 1 and len(prev) == 1
+    rec_detail = f"first yields {pre}"
+    if ok:
+        CUR, PREV = cur[0], prev[0]
+        env2 = {}
+        yields.clear()
+        loop_body, loop = loop.body, "done"
+        step(loop_body, env2)
+        nxt = f"2 * hamiltonian @ {CUR} - {PREV}"
+        ok = yields == [nxt] and norm(env2.get(CUR, ast.Name(id=CUR))) == nxt and norm(env2.get(PREV, ast.Name(id=PREV))) == CUR
+        rec_detail += f"; one turn of the loop yields {yields}, then ({CUR}, {PREV}) = ({norm(env2.get(CUR, ast.Name(id=CUR)))}, {norm(env2.get(PREV, ast.Name(id=PREV)))})"
+    rep.check(ok, R, "kpm::kpm_vectors Chebyshev recurrence T_0 v = v, T_1 v = H v, T_{n+1} v = 2 H T_n v - T_{n-1} v", rec_detail, repo.loc("kpm", kv))
+
+    # -- rescale -------------------------------------------------------------------------------------------------------------
+    rs = repo.find("kpm::rescale", R)
+    outs = [o for o in outcomes(rs.body, Scope(repo.trees["kpm"], rs), env={}, opaque=("lmin", "lmax"), expand=False) if o.kind == "return"]
+    if not outs:
+        raise AnalysisError(R, "kpm.rescale: no returning path")
+    A_T, B_T = "np.abs(lmax - lmin) / (2.0 - eps)", "(lmax + lmin) / 2.0"
+    IDS = ("sparse.csr_array(sparse.identity(hamiltonian.shape[0], format='csr'))", "sparse.identity(hamiltonian.shape[0], format='csr')",
+           "np.eye(hamiltonian.shape[0])", "np.identity(hamiltonian.shape[0])")
+    forms = set()
+    ok = True
+    for o in outs:
+        v = o.value
+        if not (isinstance(v, ast.Tuple) and len(v.elts) == 2 and isinstance(v.elts[1], ast.Tuple) and len(v.elts[1].elts) == 2):
+            raise AnalysisError(R, f"kpm.rescale returns `{norm(v)[:60]}`")
+        h, (a_, b_) = v.elts[0], v.elts[1].elts
+        forms.add(norm(h)[:120])
+        good = norm(a_) == A_T and norm(b_) == B_T and any(norm(h) == f"(hamiltonian - {B_T} * {i_}) / ({A_T})" or
+                                                             norm(h) == f"(hamiltonian - {B_T} * {i_}) / {A_T}" for i_ in IDS)
+        ok = ok and good
+    rep.check(ok, R, "kpm::rescale returns (H - b)/a with a = bandwidth/(2 - eps), b = band centre", str(sorted(forms)), repo.loc("kpm", rs))
